@@ -27,6 +27,8 @@ TEMPLATES = [
     ("O,P,S,O", 2),
     ("F,F,O", 2),
     ("O,P,F,O", 1),
+    # Q = predict/transform with an inner estimator failing at a predict-time site
+    ("O,P,Q,P", 2),
 ]
 
 INVALID = ["nan-X", "inf-X", "nan-y", "rows-mismatch", "too-few", "1d-X", "single-class", "empty", "bad-weights"]
@@ -167,6 +169,8 @@ class _Run:
         fitted = False
         failed_kinds = []
         tape = None
+        last_obs = None
+        failed_predict = False
         for j, op in enumerate(history):
             last = j == len(history) - 1
             kind = op[0]
@@ -235,8 +239,25 @@ class _Run:
                 if not fitted:
                     continue
                 self.env()
-                R.observe(c, spec, est, cfg, data.Xp)
+                obs = R.observe(c, spec, est, cfg, data.Xp)
                 self.check_frame(est, fp0, snap0, [], "predict/transform", False)
+                if failed_predict and last_obs is not None:
+                    bad = R.same_outputs(spec, last_obs, obs, exact=True)
+                    if bad:
+                        self.viol(
+                            "predict-differs-after-failed-predict",
+                            (bad[0],),
+                            "after a predict/transform call in which an inner estimator failed, the same call returns other values than before (%r)" % (bad,),
+                        )
+                last_obs = obs
+            elif kind == "Q":
+                if not fitted:
+                    continue
+                self.env(fire=[op[1]])
+                R.observe(c, spec, est, cfg, data.Xp)
+                if c.fault_plan.fired:
+                    failed_predict = True
+                self.check_frame(est, fp0, snap0, [], "failed-predict(peer-fault)", False)
             elif kind == "S":
                 if not fitted or not hasattr(est, "score") or data.kind == "frame":
                     continue
@@ -300,6 +321,29 @@ def run(c, index, tier):
     c.signature = [spec.name, template, use_invalid, repr(sorted((k, repr(v)) for k, v in cfg.items() if k not in ("pre_seed",)))[:200]]
     r = _Run(c, spec, cfg, data, g, os_base)
     letters = template.split(",")
+
+    if "Q" in letters:
+        # dry run: which fault sites does predict/transform reach?
+        est = spec.build(cfg)
+        r.env()
+        args, kw = spec.fit_args(data, cfg)
+        ok, res = U.sut(c, "fit(dry)", est.fit, *args, **kw)
+        if not ok:
+            c.probe("fit_raised_on_generated_data:" + spec.name)
+            return
+        r.env()
+        R.observe(c, spec, est, cfg, data.Xp)
+        sites = list(c.fault_plan.seen)
+        c.scenario["predict_sites"] = len(sites)
+        c.probe("predict_sites_total", len(sites))
+        if not sites:
+            c.probe("scenario_without_predict_site")
+            return
+        for site in sites[:24]:
+            r.execute([("Q", site) if x == "Q" else (x,) for x in letters])
+        c.scenario["executions"] = min(len(sites), 24)
+        c.nontrivial = True
+        return
 
     if "F" not in letters:
         r.execute([(x,) for x in letters])
